@@ -304,6 +304,8 @@ def run(tier='quick', seed=0):
             R.add(ob)
         else:
             R.add(report.Ob(oid, 'discharged', level='bounded', backend='native-exhaustive', paths=t['counts'].get('C16', 0)))
+        if fails and not new:
+            R.add(report.Ob(oid + '[known]', 'known', level='bounded', detail=f'{t["tkey"]}: {fails[0][0]} -> {fails[0][1][:120]} ({len(fails)} histories inside the committed extent)'))
     R.explanation = (f'{len(tasks)} element classes: _create_et_xml_element with symbolic text and attribute value against the recording ElementTree stub (all strings), purity on the real '
                      f'back end; {len(CHAINS)} nested chains x all interleavings of serialise/mutate/attach/detach up to depth {3 if tier == "quick" else 4} against an independent renderer (bounded); '
                      'bounded layer: to_string has no observable effect on any history.')
